@@ -34,8 +34,9 @@ LEVEL_NOTE = ("trusted: numpy, the transcription of the jump conditions in xpmc/
               "of eexp.py) and an in-process memo of guderley.ramsey.get_shock_position (pure function, computed by the real code once per task); "
               "assumed: defects confined to parameter values between lattice values are not seen; RMTV ignores t, so its shock speed is checked "
               "only through the speed-independent combination of mass and momentum, [T]=0 and the similarity scaling of the implied speed")
-BOUND = {"quick": "K=1 deviations from the default vector (black-box Noh: full product 7 EOS x 3 geometries x 5 initial states x 6 guesses); Guderley K=1",
-         "thorough": "K=2 deviations (black-box Noh: full product; Guderley: all 10 cached vectors)"}
+BOUND = {"quick": "K=1 deviations from the default vector (black-box Noh: full product 7 EOS x 3 geometries x 5 initial states x 6 Newton guesses; "
+                  "tabulated Riemann problems x mirror: full product; general-EOS Riemann: last lattice time only)",
+         "thorough": "K=2 deviations (black-box Noh and tabulated Riemann problems: full product; Guderley: all 10 cached vectors)"}
 RULE = ("tasks = all parameter vectors with <=K deviations from the default over each family's alphabet (x lattice time for the heavy "
         "families); an evaluation is one public solver call; a case is one located discontinuity (or, for SDRZ, the reaction zone of one "
         "profile; for Mader, the front state of one profile); it is non-trivial when some field jumps by more than 1e-3 relative across "
@@ -57,23 +58,25 @@ FAMILIES = {      # heavy families first (load balance); inside a family the enu
     "EPpiston": (1, 2, False), "EHEP": (1, 2, False), "SDRZ": (1, 2, False), "Mader": (1, 2, False),
 }
 
-# Tolerances: >= 10 x the worst residual of the unchanged code over the thorough lattice (measured value in the comment).
+# Tolerances: >= 10 x the worst residual of the unchanged code over the *thorough* lattice (measured value in the comment;
+# every run writes the current maxima to evidence coverage.worst_passing_residual).  The seeded changes of mutants/C02
+# produce residuals 1.6e-3 ... 0.9, i.e. >= 1e5 x the class-A tolerances.
 TOL = {
-    "Noh": 1e-9,           # measured 5.6e-14
-    "Cog19": 1e-9,         # measured 1.2e-13
-    "Cog20": 1e-9,         # (every case violates: finding cog20-shock-location) planar states alone: 1e-16
-    "Cog21": 1e-8,         # measured 5.3e-13 (4th-order difference of r ~ t^-2)
-    "BBNoh": 1e-7,         # Newton tolerance 1e-10; measured 2.2e-15 (default state), 2.2e-15 (reduced oracle)
-    "IGEOS": 1e-8, "IGEOS_table": 1e-8,     # measured 1.1e-10 (position noise 1e-13 / dt)
-    "GenEOS": 5e-2, "GenEOS_table": 5e-2,   # class C: p-u curves tabulated at 501 points and interpolated linearly; measured 6.0e-3 (LeBlanc:
+    "Noh": 1e-9,           # measured 3.8e-14
+    "Cog19": 1e-9,         # measured 8.1e-14
+    "Cog20": 1e-9,         # (every case violates: finding cog20-shock-location)
+    "Cog21": 1e-8,         # measured 2.7e-12 (4th-order difference of r ~ t^-2)
+    "BBNoh": 1e-7,         # Newton tolerance 1e-10; measured 2.2e-15 (default state and reduced oracle rhIC)
+    "IGEOS": 1e-8, "IGEOS_table": 1e-8,     # measured 7.4e-12 (bisection on p* to 2e-12), LeBlanc 1.8e-10
+    "GenEOS": 6e-2, "GenEOS_table": 6e-2,   # class C: p-u curves tabulated at 501 points and interpolated linearly; measured 6.0e-3 (LeBlanc:
                                             # the star pressure lies inside the first interval of the shock table), 1.6e-3 otherwise
-    "EPpiston": 1e-9,      # measured 3.2e-15
-    "EHEP": 1e-5,          # region assignment has a 1e-6 wide noisy band (see x_c02_families.EHEPA); measured 1.1e-7
-    "SDRZ": 1e-9,          # front; measured 8.7e-14.  reaction zone: SDRZ_ZONE_TOL
+    "EPpiston": 1e-9,      # measured 3.2e-15 (overdriven vectors: 6.0e-6, finding ep-piston-overdriven-not-rejected)
+    "EHEP": 1e-5,          # region assignment has a 1e-6 wide noisy band (see x_c02_families.EHEPA); measured 3.2e-8
+    "SDRZ": 1e-9,          # front; measured 1.9e-14.  reaction zone: SDRZ_ZONE_TOL
     "Mader": 1e-8,         # front state extrapolated from cell means of width 1e-6 D t; measured 6.6e-11
-    "Sedov": 1e-4,         # fminbound on (lambda - lambda_want)^2 resolves v to ~1e-8: measured 2.2e-6 (k=2, gamma=1.2, vacuum type)
+    "Sedov": 1e-4,         # fminbound on (lambda - lambda_want)^2 resolves v to ~1e-8: measured 1.1e-6
     "Guderley": 1e-7,      # reduced oracle (Lazarus time), 4th-order difference at dt/t = 1e-3; measured 1.3e-10
-    "RMTV": 1e-8,          # measured 1.8e-13
+    "RMTV": 1e-8,          # measured 9.3e-14
 }
 SDRZ_ZONE_TOL = 3e-4       # linear interpolation in a 201-point table: measured 1.2e-5
 # a discontinuity is a contact when no mass crosses it: |u - s| <= CTOL x velocity scale on both sides
